@@ -49,6 +49,8 @@ HOSTILE: List[Tuple[str, str]] = [
     ("sibling-cmap", "../cmapX/x"),  # sibling directory whose name merely starts like the resource directory
     ("sibling-out", "../outX/x"),
     ("nested", "....//x"),  # becomes ../x if '../' is deleted once
+    ("sibling-case", "../CMAP/evil"),  # sibling of the resource directory (.../cmap) whose name differs only in letter case
+    ("sibling-case-out", "../OUT/evil"),
 ]
 TRAVERSAL = ["up1", "up2", "abs", "suffix"]
 
@@ -135,7 +137,7 @@ IMAGE_SLOTS = ("image-name", "image-in-form", "form-name")
 OTYPES = ["text", "xml", "html"]
 
 BOUNDS = {
-    "quick": "11 slots x 19 hostile strings (image slots x 7 export kinds) x output type text; + xml/html for image-name; + inline image and benign baselines; + 17 late-sentinel cases (files appearing after the ImageWriter exists); + 6 CMap slots x 5 names with CMAP_PATH unset and decoys in the working directory; + CMAP_PATH in {'', '.', relative dir} x 5 slots x 6 names; + 10 symlink-inside-resource-dir cases; + %d names built from the %d code points whose normal/case forms contain path syntax x 4 slots; + %d names over the regex/glob/printf metacharacters x 6 sets of pre-existing NAME/NAME.0/NAME.1 files x 3 same-named exports (3 pages); + image names {., .., empty, x} x {BitsPerComponent, Width, Height, ColorSpace, Filter} x 13 hostile values (names with slashes/dots, strings with path syntax, real, negative, huge, null, array) through the raw export; + ImageWriter reused for 2-3 same-shaped documents (3 names x 3 kinds x 3 pre-sets x 3 shapes); + 21 names of 200..300 bytes (ASCII and multi-byte) x 3 kinds with user files named like every plausible truncation; + 6 output-dir spellings (through a symlink + '..', relative, './', trailing slash) x 2 names x 2 kinds x existing/fresh" % (len(UNICODE_HOSTILE), len(COMPAT), len(META_NAMES)),
+    "quick": "11 slots x 19 hostile strings (image slots x 7 export kinds) x output type text; + xml/html for image-name; + inline image and benign baselines; + 17 late-sentinel cases (files appearing after the ImageWriter exists); + 6 CMap slots x 5 names with CMAP_PATH unset and decoys in the working directory; + CMAP_PATH in {'', '.', relative dir} x 5 slots x 6 names; + 10 symlink-inside-resource-dir cases; + %d names built from the %d code points whose normal/case forms contain path syntax x 4 slots; + %d names over the regex/glob/printf metacharacters x 6 sets of pre-existing NAME/NAME.0/NAME.1 files x 3 same-named exports (3 pages); + image names {., .., empty, x} x {BitsPerComponent, Width, Height, ColorSpace, Filter} x 13 hostile values (names with slashes/dots, strings with path syntax, real, negative, huge, null, array) through the raw export; + ImageWriter reused for 2-3 same-shaped documents (3 names x 3 kinds x 3 pre-sets x 3 shapes); + 21 names of 200..300 bytes (ASCII and multi-byte) x 3 kinds with user files named like every plausible truncation; + output_dir '' and None with a sentinel working directory (nothing may be created); + 5 cases with NAME.ext and NAME.0..999.ext pre-existing (export must become NAME.1000.ext); + 7 output-dir spellings (incl. '.' = cwd) (through a symlink + '..', relative, './', trailing slash) x 2 names x 2 kinds x existing/fresh" % (len(UNICODE_HOSTILE), len(COMPAT), len(META_NAMES)),
     "thorough": "quick + all output types for every image case + all unordered slot pairs x 4x4 traversal strings",
 }
 
@@ -406,6 +408,18 @@ class Tree:
         self.root = os.path.join(os.path.realpath(tempfile.gettempdir()), "verif_c15_p%d" % os.getpid())
         shutil.rmtree(self.root, ignore_errors=True)
         os.mkdir(self.root, 0o700)
+        # sweep trees left behind by worker processes that were killed in mid-shard (their pid is gone)
+        try:
+            for n in os.listdir(os.path.dirname(self.root)):
+                if n.startswith("verif_c15_p") and n[11:].isdigit():
+                    try:
+                        os.kill(int(n[11:]), 0)
+                    except ProcessLookupError:
+                        shutil.rmtree(os.path.join(os.path.dirname(self.root), n), ignore_errors=True)
+                    except OSError:
+                        pass
+        except OSError:
+            pass
         self.cmap = os.path.join(self.root, "a", "b", "cmap")
         self.out = os.path.join(self.root, "a", "b", "out")
         self.abs = os.path.join(self.root, "abs")
@@ -696,9 +710,13 @@ def run_case(case: Dict[str, Any]):
             outdir_arg = t.out + "/"
         elif sp == "dot-slash":
             outdir_arg = os.path.join(ab, ".", "out")
+        elif sp == "cwd-dot":
+            chdir_to, outdir_arg = t.cwd, "."
         else:
             raise ValueError(sp)
     # the directory the caller chose, resolved the way the OS resolves it, before anything is created
+    if case.get("no_export") and not chdir_to:
+        chdir_to = t.cwd  # export disabled (output_dir None or ''): a sentinel working directory in which nothing may appear
     out_real = os.path.realpath(os.path.join(chdir_to or os.getcwd(), outdir_arg))
     if not out_real.startswith(t.root + os.sep):
         raise RuntimeError("harness: output directory outside the harness tree")
@@ -709,7 +727,11 @@ def run_case(case: Dict[str, Any]):
     if repeat:
         # exactly the listed user files (named with the sanitised spelling the exporter uses for its candidates)
         base_nm = re.sub(r"[/\\\0]", "_", img_names[0])
-        for suf in case.get("pre", ()):
+        pre_sufs = list(case.get("pre", ()))
+        if case.get("pre_n"):
+            # NAME.ext and NAME.0.ext .. NAME.(n-1).ext all taken: the export has to go to NAME.n.ext
+            pre_sufs = [""] + [".%d" % i for i in range(int(case["pre_n"]))]
+        for suf in pre_sufs:
             with open(os.path.join(out_real, base_nm + suf + EXT[kind]), "wb") as f:
                 f.write(b"user file " + suf.encode())
     elif case.get("trunc"):
@@ -757,7 +779,7 @@ def run_case(case: Dict[str, Any]):
         elif late:
             exc = _extract_late(pdf, outdir_arg, otype, plant_late)
         else:
-            exc = _extract(pdf, None if case.get("no_export") else outdir_arg, otype)
+            exc = _extract(pdf, ("" if case.get("out_empty") else None) if case.get("no_export") else outdir_arg, otype)
     finally:
         _ARMED[0] = False
         os.chdir(old_cwd)
@@ -879,6 +901,16 @@ def _cases(tier: str) -> List[Dict[str, Any]]:
     for ot in OTYPES:
         cs.append({"slots": [("image-name", "Im0")], "kind": "bmp1", "otype": ot, "fresh_out": True})
         cs.append({"slots": [("image-name", "up1"), ("image-in-form", "abs")], "kind": "jpg", "otype": ot, "no_export": True})
+        # output_dir '' means "no export", exactly like None: nothing may be created, in particular not in the working directory
+        for kind in ("bmp1", "jpg", "raw"):
+            for nm in ("Im0", "up1"):
+                cs.append({"slots": [("image-name", nm)], "kind": kind, "otype": ot, "no_export": True, "out_empty": True})
+                cs.append({"slots": [("image-name", nm)], "kind": kind, "otype": ot, "no_export": True})
+    # a full candidate range: NAME.ext and NAME.0.ext .. NAME.999.ext exist, the export must become NAME.1000.ext
+    for nm in ("Im0", "a.b"):
+        for kind in ("bmp8gray", "jpg"):
+            cs.append({"slots": [("image-name", "lit:" + nm)], "kind": kind, "otype": "text", "repeat": 1, "pre_n": 1000})
+    cs.append({"slots": [("image-name", "lit:Im0")], "kind": "raw", "otype": "text", "repeat": 2, "pre_n": 1000})
     # files that come into existence after the ImageWriter was set up must not be overwritten either
     for kind in IMAGE_KINDS:
         for nm in ("Im0", "existing"):
@@ -900,11 +932,13 @@ def _cases(tier: str) -> List[Dict[str, Any]]:
     for slot in ("type0-encoding", "cmap-stream-name", "usecmap-tounicode-type0", "usecmap-tounicode-simple", "registry", "ordering"):
         cs.append({"slots": [(slot, "Alias")], "kind": "bmp1", "otype": "text", "symlinks": "file"})
     # spellings of the output directory: files go where the OS resolves the caller's path, nowhere else
-    for sp in ("symlink-dotdot", "symlink-dotdot-rel", "relative", "dot-slash-rel", "trailing-slash", "dot-slash"):
+    for sp in ("symlink-dotdot", "symlink-dotdot-rel", "relative", "dot-slash-rel", "trailing-slash", "dot-slash", "cwd-dot"):
         for nm in ("Im0", "up1"):
             for kind in ("bmp1", "jpg"):
                 for fresh in (False, True):
                     c = {"slots": [("image-name", nm)], "kind": kind, "otype": "text", "out_spelling": sp}
+                    if fresh and sp == "cwd-dot":
+                        continue  # the working directory itself cannot be absent
                     if fresh:
                         c["fresh_out"] = True
                     cs.append(c)
@@ -1007,7 +1041,7 @@ def replay(case):
          "fresh_out": case.get("fresh_out", False), "no_export": case.get("no_export", False),
          "late_sentinels": case.get("late_sentinels", False), "cwd_mode": case.get("cwd_mode", False),
          "cmap_env": case.get("cmap_env"), "symlinks": case.get("symlinks"), "out_spelling": case.get("out_spelling"),
-         "repeat": case.get("repeat"), "pre": tuple(case.get("pre") or ()), "reuse": case.get("reuse"), "trunc": case.get("trunc"),
+         "repeat": case.get("repeat"), "pre": tuple(case.get("pre") or ()), "reuse": case.get("reuse"), "trunc": case.get("trunc"), "pre_n": case.get("pre_n"), "out_empty": case.get("out_empty"),
          "img_field": (case["img_field"][0], tuple(case["img_field"][1])) if case.get("img_field") else None}
     try:
         viol, _, _ = run_case(c)
